@@ -171,6 +171,13 @@ func buildSession(specs []builderSpec, rng *Rng, issig bool) *Session {
 						st2, _ := rangeproof.NewStatement(rangeproof.LesserOrEqual, b2)
 						stmts[idx] = append(stmts[idx], st2)
 					}
+					// range parts on further hidden attributes (their contributions are hashed in ascending index order)
+					for _, j := range hidden {
+						if j != idx && rng.Bool() {
+							stj, _ := rangeproof.NewStatement(rangeproof.LesserOrEqual, new(gbig.Int).Add(cred.Attributes[j], bi(int64(rng.Intn(50)))))
+							stmts[j] = []*rangeproof.Statement{stj}
+						}
+					}
 				}
 			}
 			b, err := cred.CreateDisclosureProofBuilder(disclosed, stmts, sp.nonrev)
@@ -231,7 +238,18 @@ func verifyCase(s *Suite, kind string, small bool, pks []*gabikeys.PublicKey, ct
 	if len(pl) == 1 && len(pks) >= 1 && pks[0] != nil && !ambiguous && pl[0] != nil {
 		single = cloneProof(pl[0])
 	}
+	argsBefore := S(L{pkv, ctx, nonce})
 	out, panicked, accepted := catchBool(func() bool { return pl.Verify(pks, ctx, nonce, issig, labels) })
+	{
+		// public keys, context and nonce are the caller's (keys are shared between verifiers): verification only reads them
+		pkv2 := L{}
+		for _, pk := range pks {
+			pkv2 = append(pkv2, dumpPk(pk))
+		}
+		if after := S(L{pkv2, ctx, nonce}); after != argsBefore {
+			s.Violate("verify:arguments-mutated", "ProofList.Verify changed a public key, the context or the nonce it was given ("+kind+")", L{kind, argsBefore, after})
+		}
+	}
 	if ambiguous {
 		s.Dist["skipped:ambiguous-revocation-index"]++
 		return
